@@ -97,12 +97,12 @@ path = "src/main.rs"
 
 [dependencies]
 slice-codec = {{ path = "{repo}/slice-codec" }}
+libc = "0.2"
 
 [workspace]
 
 [profile.release]
 debug = "line-tables-only"
-overflow-checks = false
 
 [profile.dev]
 debug = "line-tables-only"
